@@ -55,6 +55,9 @@ type PeerActor struct {
 	Accepted int
 	Dialed   int
 	NoChecks bool
+	// NoWireChecks: also silence the wire-format checks (metainfo world: the peer's torrent
+	// description is deliberately not the one the SUT adopted)
+	NoWireChecks bool
 }
 
 func (a *PeerActor) newPeer() *refbt.Peer {
@@ -67,6 +70,7 @@ func (a *PeerActor) newPeer() *refbt.Peer {
 	p.H = a.Hooks
 	p.Lim = a.Lim
 	p.NoChecks = a.NoChecks
+	p.NoWireChecks = a.NoWireChecks
 	a.mu.Lock()
 	a.Conns = append(a.Conns, p)
 	a.mu.Unlock()
